@@ -135,6 +135,30 @@ def snapshot(tf, w, lazy):
                 out['unscaled'][c.path] = ops.norm(c.read_data(scaled=False))
             except Exception as exc:
                 out['unscaled'][c.path] = ('exc', type(exc).__name__)
+    if lazy:
+        # every channel's chunk stream, advanced round-robin (so that suspended generators sit in segments of different
+        # byte order) with a direct read of some other channel between two advances
+        chans = [c for g in tf.groups() for c in g.channels()]
+        live = [[c, c.data_chunks(), []] for c in chans]
+        streams = {}
+        step = 0
+        while live:
+            for item in list(live):
+                c, gen_, parts = item
+                try:
+                    parts.append(ops.norm(next(gen_)[:]))
+                except StopIteration:
+                    live.remove(item)
+                    streams[c.path] = ops.concat_norm(parts) or ('arr', '?', 0, '')
+                except Exception as exc:
+                    live.remove(item)
+                    streams[c.path] = ('exc', type(exc).__name__)
+                try:
+                    chans[step % len(chans)].read_data(0, 1)
+                except Exception:
+                    pass
+                step += 1
+        out['streams'] = streams
     return out
 
 
